@@ -320,14 +320,20 @@ func (client *Client) call(ctx context.Context, servicePath, serviceMethod strin
 		}()
 	}
 
-	Done := client.Go(ctx, servicePath, serviceMethod, args, reply, make(chan *Call, 10)).Done
+	thisCall := client.Go(ctx, servicePath, serviceMethod, args, reply, make(chan *Call, 10))
+	Done := thisCall.Done
 
 	var err error
 	select {
 	case <-ctx.Done(): // cancel by context
 		client.mutex.Lock()
+		// *seq is 0 until send has registered this call: only remove our own entry
 		call := client.pending[*seq]
-		delete(client.pending, *seq)
+		if call == thisCall {
+			delete(client.pending, *seq)
+		} else {
+			call = nil
+		}
 		client.mutex.Unlock()
 		if call != nil {
 			call.Error = ctx.Err()
@@ -536,11 +542,11 @@ func (client *Client) send(ctx context.Context, call *Call) {
 	seq := client.seq
 	client.seq++
 	client.pending[seq] = call
-	client.mutex.Unlock()
-
+	// publish the seq to call() before the mutex is released: call() reads it under the mutex
 	if cseq, ok := ctx.Value(seqKey{}).(*uint64); ok {
 		*cseq = seq
 	}
+	client.mutex.Unlock()
 
 	// req := protocol.NewMessage()
 	req := protocol.NewMessage()
